@@ -122,6 +122,38 @@ def _unstable_paths(fn) -> set:
     return out
 
 
+def _bound_method_snapshot_ok(fn, st, name, selfname) -> bool:
+    """`w = self.fp.write; w(a); w(b)`: a bound method of state another method may re-bind, taken and used within one straight
+    line of statements of the same block in which nothing can re-bind it - no call of a method of `self`, no yield/await, no
+    store to an attribute of self - and the alias is only ever called. Then `w(a)` is `self.fp.write(a)`."""
+    holder = getattr(st, "_parent", None)
+    for attr in ("body", "orelse", "finalbody"):
+        blk = getattr(holder, attr, None)
+        if isinstance(blk, list) and any(b is st for b in blk):
+            break
+    else:
+        return False
+    i = next(k for k, b in enumerate(blk) if b is st)
+    uses = [x for x in _own_nodes(fn) if isinstance(x, ast.Name) and x.id == name and isinstance(x.ctx, ast.Load)]
+    if not uses or not all(isinstance(getattr(u, "_parent", None), ast.Call) and u._parent.func is u for u in uses):
+        return False
+    last = i
+    for u in uses:
+        k = next((k for k in range(i + 1, len(blk)) if any(u is x for x in ast.walk(blk[k]))), None)
+        if k is None:
+            return False
+        last = max(last, k)
+    for k in range(i + 1, last + 1):
+        for x in ast.walk(blk[k]):
+            if isinstance(x, (ast.Yield, ast.YieldFrom, ast.Await, ast.FunctionDef, ast.Lambda)):
+                return False
+            if isinstance(x, ast.Call) and isinstance(x.func, ast.Attribute) and isinstance(x.func.value, ast.Name) and x.func.value.id == selfname:
+                return False
+            if isinstance(x, ast.Attribute) and isinstance(x.ctx, (ast.Store, ast.Del)) and isinstance(x.value, ast.Name) and x.value.id == selfname:
+                return False
+    return True
+
+
 def substitute_function(fn) -> int:
     params = set(func_params(fn))
     a = fn.args
@@ -215,8 +247,18 @@ def substitute_function(fn) -> int:
                     sts = [x for x in _own_nodes(fn) if isinstance(x, ast.Attribute) and isinstance(x.ctx, ast.Store) and dotted(x) == f]
                     if len(sts) == 1 and (sts[0].lineno, sts[0].col_offset) < (st.lineno, st.col_offset):
                         single_before.add(f)
+            # the root of an attribute path that is a local with one definition, placed before the alias (`values = []; append = values.append`):
+            # the local names one object for the alias's whole life - its single store is not a re-binding
+            stable_roots = set()
+            for f in free:
+                root = f.split(".")[0]
+                if "." in f and counts.get(root) == 1 and root not in params:
+                    dst = next((x for x in _own_nodes(fn) if isinstance(x, ast.Assign) and any(isinstance(y, ast.Name) and y.id == root and isinstance(y.ctx, ast.Store)
+                                                                                               for t_ in x.targets for y in ast.walk(t_))), None)
+                    if dst is not None and (dst.lineno, dst.col_offset) < (st.lineno, st.col_offset):
+                        stable_roots.add(root)
             for s_ in stored:
-                if s_ == name or s_ in single_before:
+                if s_ == name or s_ in single_before or s_ in stable_roots:
                     continue
                 for f in free:
                     if f == s_ or f.startswith(s_ + ".") or s_.startswith(f + "."):
@@ -224,7 +266,8 @@ def substitute_function(fn) -> int:
             for f in free:
                 fs = f if selfname == "self" else (("self" + f[len(selfname):]) if f == selfname or f.startswith(selfname + ".") else f)
                 if any(fs == u or fs.startswith(u + ".") for u in unstable):
-                    clash = True
+                    if not _bound_method_snapshot_ok(fn, st, name, selfname):
+                        clash = True
             if clash:
                 continue
             # the assignment must not sit in a loop or a conditional branch (one unconditional definition)
@@ -810,6 +853,68 @@ def _atom(e, local_names=frozenset()) -> bool:
     return isinstance(y, ast.Name) and (y is e or y.id not in local_names)
 
 
+def substitute_module_aliases(prog) -> int:
+    """A module-level NAME the rules do not know (not in sa/known_globals.json), assigned once from a path expression
+    (`_pack_size = _SIZE.pack`, `_get = FIELD_MAP.get`) and never re-bound, is another spelling of that path: its uses are
+    replaced by the path. The path's root must itself be a module-level name that no function re-binds."""
+    import json
+    import os
+
+    with open(os.path.join(os.path.dirname(os.path.abspath(__file__)), "known_globals.json")) as f:
+        known = json.load(f)["names"]
+    total = 0
+    for m in prog.modules.values():
+        kn = set(known.get(m.modname, []))
+        rebound = set()
+        for g in ast.walk(m.tree):
+            if isinstance(g, ast.Global):
+                rebound.update(g.names)
+        stores = {}
+        for n in ast.walk(m.tree):
+            if isinstance(n, ast.Name) and isinstance(n.ctx, (ast.Store, ast.Del)):
+                stores[n.id] = stores.get(n.id, 0) + 1
+        module_names = {t.id for st in m.tree.body if isinstance(st, (ast.Assign, ast.AnnAssign)) for t in (st.targets if isinstance(st, ast.Assign) else [st.target]) if isinstance(t, ast.Name)} \
+            | {st.name for st in m.tree.body if isinstance(st, (ast.FunctionDef, ast.ClassDef))} \
+            | {(a.asname or a.name).split(".")[0] for st in m.tree.body if isinstance(st, (ast.Import, ast.ImportFrom)) for a in st.names}
+        for _ in range(4):
+            changed = False
+            for st in list(m.tree.body):
+                if not (isinstance(st, ast.Assign) and len(st.targets) == 1 and isinstance(st.targets[0], ast.Name)):
+                    continue
+                name = st.targets[0].id
+                v = st.value
+                if name in kn or name in rebound or stores.get(name) != 1 or not isinstance(v, ast.Attribute) or not dotted(v):
+                    continue
+                root = dotted(v).split(".")[0]
+                if root not in module_names or root in rebound or stores.get(root, 0) > 1 or root == name:
+                    continue
+                # parameters / locals of the same name in some function shadow the module-level one: leave such modules alone
+                if any(isinstance(a, ast.arg) and a.arg == name for a in ast.walk(m.tree)):
+                    continue
+                n_rep = 0
+                for n in list(ast.walk(m.tree)):
+                    for fld, val in ast.iter_fields(n):
+                        vals = val if isinstance(val, list) else [val]
+                        for k, x in enumerate(vals):
+                            if isinstance(x, ast.Name) and x.id == name and isinstance(x.ctx, ast.Load):
+                                rep = copy_ast(v)
+                                for y in ast.walk(rep):
+                                    ast.copy_location(y, x)
+                                    y._module = m
+                                if isinstance(val, list):
+                                    val[k] = rep
+                                else:
+                                    setattr(n, fld, rep)
+                                n_rep += 1
+                if n_rep:
+                    m.tree.body.remove(st)
+                    total += 1
+                    changed = True
+            if not changed:
+                break
+    return total
+
+
 def _literal(v):
     """AST of an immutable constant value, or None."""
     if isinstance(v, (str, bytes, int, float, bool, type(None))):
@@ -1110,6 +1215,7 @@ def run(prog) -> int:
     from .inline import relink
 
     canonical_spellings(prog)
+    substitute_module_aliases(prog)
     folded = fold_new_constants(prog)
     for m in prog.modules.values():
         relink(m)
